@@ -152,6 +152,7 @@ package meta
 //@   ensures [enums] old(derived.enums) == nil ? derived.enums === base.enums : derived.enums === old(derived.enums)
 //@   ensures [path] derived.path == ((base.path != "" && old(derived.path) == "") ? base.path : old(derived.path))
 //@   ensures [fraction] derived.fractionDigits == (old(derived.fractionDigits) == 0 ? base.fractionDigits : old(derived.fractionDigits))
+//@   ensures [targetNotInherited] derived.delegate == old(derived.delegate) && derived.ident == old(derived.ident)
 
 // ---- C14 (loading cannot crash or hang in an if-feature expression) ---------------------------------------------
 // the operator-stack evaluator of if-feature expressions: for every expression text it stays inside the text, every
